@@ -1,7 +1,8 @@
 """C15 — world-stopping operations see other threads only while they are stopped.
 
 translate  : translate/c16_callpaths.py (gate sites of with_locked_env: which variant of the model is the code).
-prove      : lake build SteelVerif.C15.Props + axiom audit: scan_exclusive_partial(_code), env_coherent_partial(_code),
+prove      : lake build SteelVerif.C15.Props + axiom audit: scan_exclusive_repaired / env_coherent_repaired (the repaired handshake, full
+             strength, no guard), R.Litmus (store buffers); scan_exclusive_partial(_code), env_coherent_partial(_code),
              env_published_partial for all N and all interleavings under the decidable guard G; negation witnesses
              not_scan_exclusive(_code) (exit race, K15a), not_env_coherent(_code) (late registration, K15b).
 correspond : (a) model schedules of corpus/C15/*.msched on the driver; (b) FORCED interleavings of real threads of the real
@@ -23,9 +24,9 @@ PID = "C15"
 META = {
     "ready": True,
     "category": "proof",
-    "technique": "Lean 4 invariant proof over a step-level transition system of the safepoint handshake (any number of threads, all interleavings) + forced interleavings of real threads through cfg(steel_verif) yield points + multi-threaded programs with delay injection and an in-core `being scanned` detector",
-    "level_text": "Theorems (lean/SteelVerif/C15/Props.lean; model = C15/Model.lean: N script threads and stopper roles as one transition system, every access to a thread's pause flag, state, published pointer, park token, the threads mutex and the heap mutex one atomic step; stop_threads, enumerate_stacks / call_per_ctx, resume_threads, with_locked_env, enter_safepoint, the dispatch poll, spawn-before-registration and host interrupts modelled as the code has them): scan_exclusive_partial_code - for every number of threads and EVERY interleaving that respects the decidable guard G (rounds do not overlap a spawn or a host interrupt; no stop request reaches a thread between its last exit check and its retraction), a thread whose stack / global table is being inspected or replaced is parked at a safepoint or inside a primitive that published it; env_coherent_partial_code / env_published_partial - when no round is in progress every live thread holds the newest global table. For the current code (heap-lock guard kept during with_locked_env) the guard's clause 'rounds do not overlap each other' is implied: C16/Props.lean scan_exclusive_fixed / env_coherent_fixed state both theorems under the weaker guard GFix. The FULL statements are false for the code as it is, proved from concrete schedules: not_scan_exclusive_code (safepoint exit race, 21 steps, N = 2: finding K15a) and not_env_coherent_code (a thread spawned during a round keeps the old table: K15b). NOT a theorem: that the Rust code follows the model. That is the correspondence run: the interleavings of the witnesses and of generated variants are FORCED on real threads through yield-point hooks (the exit race reproduces deterministically: the dispatch loop records that it runs while its thread is being scanned; with the JIT the thread indexes the swapped, empty table and the process aborts), and generated multi-threaded programs run with delay injection under the in-core detector.",
-    "level_note": "Trusted: Lean kernel (axioms propext, Classical.choice, Quot.sound), harnesses c15 / c16 and the yield-point hooks (add-only, cfg(steel_verif)), the python classification. Modelled, not verified: sequentially consistent atomics (the code loads `paused` Relaxed; a store-buffer delay only widens the window the guard already excludes), spurious park wake-ups are modelled, OS fairness is not assumed; thread list order = spawn order; the JIT's native code is 'runs until the next helper call'. The `being scanned` detector is read at instruction dispatch only, so in the interpreter a thread that escapes through an enter_safepoint exit re-parks at its next poll before the detector fires (the forced poll-exit schedule and the JIT abort are the observable forms).",
+    "technique": "Lean 4 invariant proofs over two step-level transition systems of the safepoint handshake (the code as it is, under a guard; the REPAIRED handshake, no guard; any number of threads, all interleavings) + a store-buffer litmus for the Dekker pair + forced interleavings of real threads through cfg(steel_verif) yield points + multi-threaded programs with delay injection and an in-core `being scanned` detector",
+    "level_text": "Theorems (lean/SteelVerif/C15/Props.lean; model = C15/Model.lean: N script threads and stopper roles as one transition system, every access to a thread's pause flag, state, published pointer, park token, the threads mutex and the heap mutex one atomic step; stop_threads, enumerate_stacks / call_per_ctx, resume_threads, with_locked_env, enter_safepoint, the dispatch poll, spawn-before-registration and host interrupts modelled as the code has them): scan_exclusive_partial_code - for every number of threads and EVERY interleaving that respects the decidable guard G (rounds do not overlap a spawn or a host interrupt; no stop request reaches a thread between its last exit check and its retraction), a thread whose stack / global table is being inspected or replaced is parked at a safepoint or inside a primitive that published it; env_coherent_partial_code / env_published_partial - when no round is in progress every live thread holds the newest global table. For the current code (heap-lock guard kept during with_locked_env) the guard's clause 'rounds do not overlap each other' is implied: C16/Props.lean scan_exclusive_fixed / env_coherent_fixed state both theorems under the weaker guard GFix. The FULL statements are false for the code as it is, proved from concrete schedules: not_scan_exclusive_code (safepoint exit race, 21 steps, N = 2: finding K15a) and not_env_coherent_code (a thread spawned during a round keeps the old table: K15b). REPAIRED HANDSHAKE (lean/SteelVerif/C15/ModelR.lean, LemmasR, StepR*, PropsR: K15a - every safepoint exit retracts and then re-checks the stop request and re-publishes if one arrived; K15b - spawn-native-thread holds the heap lock from before it clones its state until the child is registered; K17a/K17c - the controller as one word of request bits, every operation one atomic read-modify-write, exit loops wait on STOP only): R.step_inv - EVERY step preserves the invariant, no guard; scan_exclusive_repaired and env_coherent_repaired are the two C15 statements at FULL strength, for every number of threads and every schedule including host interrupt()/resume() on any controller and spawns at any time; scanned_stays / scanned_stop_set (a scanned thread's re-check never reads 'not stopped'), parked_has_wakeup (no lost wake-up in the new loop). R.Litmus (LitmusR.lean): the Dekker pair [stopper: paused.store; ctx.load] / [thread: ctx.store(None); paused.load] with one-slot store buffers - without fences the unsound outcome is reachable (sb_buffered_bad), with a fence between each store and the following load it is not (sb_fenced_safe, all interleavings by exhaustive evaluation). Patches for K15a (with the two fences) and K15b are proposed (.build/C15/proposed-fix-K15a.diff, -K15b.diff); the controller redesign is a model only. NOT a theorem: that the Rust code follows the model. That is the correspondence run: the interleavings of the witnesses and of generated variants are FORCED on real threads through yield-point hooks (the exit race reproduces deterministically: the dispatch loop records that it runs while its thread is being scanned; with the JIT the thread indexes the swapped, empty table and the process aborts), and generated multi-threaded programs run with delay injection under the in-core detector.",
+    "level_note": "The theorems about the repaired handshake are about a PROPOSED change of the code (not applied to /repo by this check); the progress theorem (C16 no_deadlock) is not re-proved for the repaired model. Trusted: Lean kernel (axioms propext, Classical.choice, Quot.sound), harnesses c15 / c16 and the yield-point hooks (add-only, cfg(steel_verif)), the python classification. Modelled, not verified: sequentially consistent atomics in both handshake models (the code loads `paused` Relaxed; for the code as it is a store-buffer delay only widens the window the guard already excludes; for the repaired handshake the one Dekker pair that needs store->load ordering is the litmus R.Litmus), spurious park wake-ups are modelled, OS fairness is not assumed; thread list order = spawn order; the JIT's native code is 'runs until the next helper call'. The `being scanned` detector is read at instruction dispatch only, so in the interpreter a thread that escapes through an enter_safepoint exit re-parks at its next poll before the detector fires (the forced poll-exit schedule and the JIT abort are the observable forms).",
 }
 
 # a thread looked a global up in the empty table installed by another thread's with_locked_env: before /repo 4b9c5de8 native
